@@ -422,7 +422,7 @@ func newBPRequester(pool *BlockPool, height int64) *bpRequester {
 	bpr := &bpRequester{
 		pool:       pool,
 		height:     height,
-		gotBlockCh: make(chan struct{}),
+		gotBlockCh: make(chan struct{}, 1),
 		redoCh:     make(chan struct{}),
 
 		peerID: "",
@@ -448,7 +448,13 @@ func (bpr *bpRequester) setBlock(block *types.Block, peerID string) bool {
 	bpr.block = block
 	bpr.mtx.Unlock()
 
-	bpr.gotBlockCh <- struct{}{}
+	// Never block here: the caller holds the pool's mutex, and the requester
+	// routine may itself be waiting (in sendRequest) for poolRoutine, which
+	// needs that mutex.
+	select {
+	case bpr.gotBlockCh <- struct{}{}:
+	default:
+	}
 	return true
 }
 
@@ -510,6 +516,11 @@ OUTER_LOOP:
 			return
 		case <-bpr.redoCh:
 			bpr.reset()
+			// drop a notification for the block that was just thrown away
+			select {
+			case <-bpr.gotBlockCh:
+			default:
+			}
 			continue OUTER_LOOP // When peer is removed
 		case <-bpr.gotBlockCh:
 			// We got the block, now see if it's good.
